@@ -22,7 +22,7 @@ var poolUnicode = []string{"日本語", "é", "é", "‮RTL", "a\u0085b", "a 
 var poolInvalidUTF8 = []string{"\xff", "a\xc3", "\xed\xa0\x80", "\xc0\xaf", "ok\xfe\xffok", "\xf8\x88\x80\x80\x80"}
 
 var poolPathy = []string{"a.go", "Makefile", ".hidden", "a..b", "...", "x y", "ü", "b.md", "README.md", "c.tar.gz", "dir", "o", "go",
-	"main.go", "src", "a", "b", "lib.a", ".go", "x.gz", "d.md", "e", "f", "..a", "a.", strings.Repeat("n", 255), "日本", "file.o", "Makefile.in", "md", "100%", "%s", "%d.go", "a%vb", "%!s(MISSING)", "$HOME", "`id`", "a;b", "a&b", "a|b", "a*b", "a?b", "[a]", "{a,b}", "a\\b", "~", "-rf", "--help"}
+	"main.go", "src", "a", "b", "lib.a", ".go", "x.gz", "d.md", "e", "f", "..a", "a.", strings.Repeat("n", 255), "日本", "file.o", "Makefile.in", "md", "100%", "%s", "%d.go", "a%vb", "%!s(MISSING)", "$HOME", "`id`", "a;b", "a&b", "a|b", "a*b", "a?b", "[a]", "{a,b}", "a\\b", "~", "-rf", "--help", "config", "config.yaml", "config-old", "config d", "a.b", "a-b", "a b", "a+b", "a,b", "a!b"}
 
 var poolHostilePath = []string{"..", ".", "a/b", "/abs", "../x", "a/../../x", "../../escaped", "/", "a/", "/etc/passwd", "..\x00", "a\x00b",
 	strings.Repeat("L", 256), "\xff\xfe", "./x", "x/.", "../..", "a//b", "~", "...",
@@ -46,6 +46,29 @@ func genFreeName() *rapid.Generator[string] {
 			s = "z"
 		}
 		return s
+	})
+}
+
+// genLongName: a valid single-line name around the buffer sizes that row readers use (4096, 65536 bytes).
+func genLongName() *rapid.Generator[string] {
+	return rapid.Custom(func(t *rapid.T) string {
+		n := rapid.SampledFrom([]int{4000, 4094, 4095, 4096, 4097, 5000, 9000, 20000, 60000}).Draw(t, "longLen")
+		ch := rapid.SampledFrom([]string{"x", "ab", "é", "-"}).Draw(t, "longCh")
+		return strings.Repeat(ch, n/len(ch))
+	})
+}
+
+// withLongName replaces one drawn node's name by a long one.
+func withLongName(t *rapid.T, f model.Forest) {
+	n := f.Count()
+	at := rapid.IntRange(0, n-1).Draw(t, "longAt")
+	name := genLongName().Draw(t, "longName")
+	i := 0
+	f.Walk(func(_ int, ch []*model.T) {
+		if i == at {
+			ch[len(ch)-1].Name = name
+		}
+		i++
 	})
 }
 
@@ -180,8 +203,8 @@ func genSpelling(headingOK bool) *rapid.Generator[model.Spelling] {
 			sp.Hashes = rapid.SliceOfN(rapid.IntRange(1, 3), 0, 3).Draw(t, "hashes")
 		}
 		if rapid.Bool().Draw(t, "blanks") {
-			sp.Blank = rapid.SliceOfN(rapid.SampledFrom([]int{0, 0, 0, 1, 2, 3, 4, 5, 6, 7}), 1, 4).Draw(t, "blank")
-			sp.Trail = rapid.IntRange(0, 7).Draw(t, "trail")
+			sp.Blank = rapid.SliceOfN(rapid.SampledFrom([]int{0, 0, 0, 1, 2, 3, 4, 5, 6, 7, 8, 9, 10}), 1, 4).Draw(t, "blank")
+			sp.Trail = rapid.IntRange(0, 10).Draw(t, "trail")
 		}
 		sp.CRLF = rapid.SliceOfN(rapid.Bool(), 0, 3).Draw(t, "crlf")
 		sp.NoFinalN = rapid.Bool().Draw(t, "nofinal")
@@ -191,7 +214,7 @@ func genSpelling(headingOK bool) *rapid.Generator[model.Spelling] {
 
 // ---- branch strings -------------------------------------------------------------------------------------------------
 
-var branchPieces = []string{"", "+", "+--", "|", ":", "`--", "->", "    ", " ", "\t", "└─ ", "║  ", "🌿", "├", "──", "x", "|   ", "\\", "%s", "*"}
+var branchPieces = []string{"", "+", "+--", "|", ":", "`--", "->", "|--", "|-", "--", "-", "||", "+-", ".", "..", "%d", "/", "\\-", "    ", " ", "\t", "└─ ", "║  ", "🌿", "├", "──", "x", "|   ", "\\", "%s", "*"}
 
 func genBranch() *rapid.Generator[*model.Branch] {
 	return rapid.Custom(func(t *rapid.T) *model.Branch {
@@ -326,4 +349,34 @@ func uniqRoots(f model.Forest) {
 		}
 		r.Name = string(rune('A'+i%26)) + strconv.Itoa(i) + string(n)
 	}
+}
+
+// genWideForest draws many small roots / wide levels so that the document exceeds 4 KiB, 8 KiB or 64 KiB.
+func genWideForest(names *rapid.Generator[string]) *rapid.Generator[model.Forest] {
+	return rapid.Custom(func(t *rapid.T) model.Forest {
+		sizes := []int{400, 700, 1200}
+		if thorough() {
+			sizes = []int{400, 700, 1200, 2500, 6000}
+		}
+		n := rapid.SampledFrom(sizes).Draw(t, "wideNodes")
+		kidsPerRoot := rapid.SampledFrom([]int{0, 1, 3, 40, 400}).Draw(t, "kidsPerRoot")
+		var f model.Forest
+		var cur *model.T
+		for i := 0; i < n; i++ {
+			nm := names.Draw(t, "name")
+			if cur == nil || len(cur.Kids) >= kidsPerRoot {
+				cur = &model.T{Name: nm + strconv.Itoa(i)}
+				f = append(f, cur)
+				continue
+			}
+			k := &model.T{Name: nm + strconv.Itoa(i)}
+			if len(cur.Kids) > 0 && i%3 == 0 {
+				last := cur.Kids[len(cur.Kids)-1]
+				last.Kids = append(last.Kids, k)
+			} else {
+				cur.Kids = append(cur.Kids, k)
+			}
+		}
+		return f
+	})
 }
